@@ -13,6 +13,13 @@ Observation is by effects, not by line numbers, so it also works on a mutated dr
     rel   the DLock is released                                    <-> Release(t)
     ret   the call returned x to its caller                        (checked against ret[t])
 
+    unlocked  `self.last` was read or written by a thread that does not hold the lock   (matches no action)
+
+Design choice (Timestamps.tla ReadOutsideLock): the property does not say where the clock is read.  probe_design()
+runs one call on the real code and looks whether the clock-read event comes before or after the lock acquisition;
+replay and trace validation are done against that design.  A second reading, a reading after Compute, or `last`
+touched without the lock stay divergences in either design.
+
 spec -> code: replay() drives the threads action by action along a TLC behaviour, requires exactly the
 events of that action, compares (lock owner, last, returned values) after each action and checks that every
 thread whose Acquire is disabled in the spec is really *blocked* on the lock (DetSched.step raises Blocked).
@@ -117,9 +124,11 @@ class TsHarness:
 
         class Probe(self.ts.MonotonicTimestampGenerator):
             def _get(self):
+                h.check_locked()
                 return self.__dict__["_probe_last"]
 
             def _set(self, v):
+                h.check_locked()
                 self.__dict__["_probe_last"] = v
                 h.log("set", v)
             last = property(_get, _set)
@@ -148,6 +157,14 @@ class TsHarness:
             x = self.gen()
             self.rets[t].append(x)
             self.log("ret", x)
+
+    def check_locked(self):
+        """`last` may only be touched by the logical thread that holds the generator's lock."""
+        a = self.sched.active
+        if a is None:
+            return                                   # the harness itself / __init__ before the threads exist
+        if getattr(self.gen.lock, "owner", None) is not a:
+            self.log("unlocked")
 
     def who(self):
         a = self.sched.active
@@ -211,9 +228,30 @@ def _seq(fn):
     return {i + 1: v for i, v in enumerate(fn)} if isinstance(fn, (tuple, list)) else {int(k): v for k, v in dict(fn).items()}
 
 
+def probe_design():
+    """One call of the real generator under the harness: is the clock read before the lock is acquired?
+    Returns True (ReadOutsideLock), False (read under the lock) or None when the call shows neither order
+    (no lock acquisition or no clock reading at all - the replay against the pinned design will then diverge)."""
+    h = TsHarness(1, 1, 1)
+    h.clock.next = 1
+    try:
+        try:
+            h.sched.finish("1")
+        except Exception:                                   # noqa - misbehaving code under test
+            pass
+        kinds = [e[0] for e in h.events]
+        if "acq" in kinds and "read" in kinds:
+            return kinds.index("read") < kinds.index("acq")
+        return None
+    finally:
+        h.close()
+
+
 def replay(consts, states, corrupt=None):
     """Replay one behaviour (list of spec states, first = initial). Returns None or a divergence dict.
-    Also returns the number of blocking checks made: (divergence, blocked_checks)."""
+    Also returns the number of blocking checks made: (divergence, blocked_checks).
+    consts["ReadOutsideLock"] (bool) is the design the behaviour was generated for."""
+    outside = bool(consts.get("ReadOutsideLock", False))
     c0 = states[0]["conf"]
     h = TsHarness(consts["N"], consts["K"], consts["M"], conf={"warn": bool(c0["warn"]), "eager": bool(c0["eager"])})
     blocked_checks = 0
@@ -221,6 +259,8 @@ def replay(consts, states, corrupt=None):
     try:
         try:
             for t in range(1, h.n + 1):
+                if outside:
+                    continue                            # the first thing a call does is to read the clock
                 ev = h.to_lock(t)
                 if ev:
                     raise Divergence("thread %d acts before asking for the lock: %s" % (t, ev))
@@ -235,13 +275,18 @@ def replay(consts, states, corrupt=None):
                 elif name == "ReadClock":
                     h.clock.next = v
                     new = h.until_event(t, "read")
+                    if outside:
+                        h.to_lock(t)                    # ... and goes on to the point where it asks for the lock
                     expect = [("read", t, v)]
                 elif name == "Compute":
                     new = h.until_event(t, "set")
                     expect = [("warn", t, None)] * a.get("w", 0) + [("set", t, v)]
                 elif name == "Release":
                     new = h.until_event(t, "rel")
-                    new = new + h.to_lock(t)
+                    if not h.sched.threads[str(t)].done:
+                        h.until_event(t, "ret")         # the caller gets the value (parks before the next call's first line)
+                    if not outside:
+                        h.to_lock(t)
                     expect = [("rel", t, None), ("ret", t, v)]
                 else:
                     raise RuntimeError("unknown action %s" % name)
@@ -259,7 +304,8 @@ def replay(consts, states, corrupt=None):
                 # enabledness of Acquire: blocked exactly where the spec disables it
                 pc, calls = _seq(st["pc"]), _seq(st["calls"])
                 for u in range(1, h.n + 1):
-                    if pc[u] != "idle" or calls[u] >= h.k:
+                    wants = (pc[u] == "clock") if outside else (pc[u] == "idle" and calls[u] < h.k)
+                    if not wants:
                         continue
                     th = h.sched.threads[str(u)]
                     if st["lock"] != 0:
